@@ -29,6 +29,12 @@ def readKeyLenient (terms : List UInt8 → Bool) (d : List UInt8) (pos : Nat) : 
     if len = 0 ∧ ¬ terms kb then .ok ({ bytes := kb, implicit := true }, p')
     else .ok ({ bytes := kb, implicit := false }, p')
 
+/-- what one resave does to an accepted byte string: the bytes of `enc (dec b)` -/
+def resaved {α : Type} (c : PCodec α) (b : B) : Except Err B :=
+  match c.dec b 0 with
+  | .ok (v, _) => c.enc v
+  | .error e => .error e
+
 /-- the `struct` items of the flat models (Model/Payload3*.lean), class by class, in the order of the source: a `rec fmt` is
 its format, a `counted w` contributes the count field. `C02.model_formats_are_the_source_pairs`: for every class here BOTH
 lists of its regenerated row (the formats `read` unpacks, the formats `write` packs) parse to exactly these items - the models
